@@ -2,6 +2,7 @@
 Helper lemmas about the engine bookkeeping model (`Brc20.Model.Node`), used by Props C05 / C06 / C08 / C19.
 -/
 import Brc20.Model.Node
+import Brc20.Proofs.AMap
 
 namespace Brc20
 namespace Node
@@ -215,7 +216,7 @@ theorem finaliseOne_ok {n : Node} {ts : Nat} {h : String} {count : Nat} {evs : L
       ((n'.b .block).get n.nextHeight).isSome ∧ ((n'.b .rawBlock).get n.nextHeight).isSome ∧
       (n'.t .hashToNumber).latest (normHash h n.nextHeight) = some (hexN 16 n.nextHeight) ∧
       (n.finaliseOne ts h count evs).1.t = n'.t ∧ (n.finaliseOne ts h count evs).1.b = n'.b ∧
-      (n.finaliseOne ts h count evs).1.lbi = {} := by
+      (n.finaliseOne ts h count evs).1.lbi = {} ∧ poolFreshAt n' n.nextHeight = true := by
   cases hv : n.validateNextTx count (normHash h n.nextHeight) n.nextHeight ts with
   | some e' =>
     simp only [finaliseOne, hv] at hok
@@ -233,9 +234,9 @@ theorem finaliseOne_ok {n : Node} {ts : Nat} {h : String} {count : Nat} {evs : L
       rw [h5] at hok
       simp only [] at hok ⊢
       simp only [apply_ite Prod.snd, ite_reject_eq_ok] at hok
-      obtain ⟨h1, h2, h3, _⟩ := hok
-      rw [if_neg h1, if_neg h2, if_neg h3]
-      refine ⟨n', rfl, ?_, ?_, ?_, ?_, rfl, rfl, rfl⟩
+      obtain ⟨h1, h2, h3, h4, _⟩ := hok
+      rw [if_neg h1, if_neg h2, if_neg h3, if_neg h4]
+      refine ⟨n', rfl, ?_, ?_, ?_, ?_, rfl, rfl, rfl, by simpa using h4⟩
       · exact Decidable.not_not.mp h1
       · cases hb : (n'.b .block).get n.nextHeight with
         | none => exact absurd (Or.inl (by simp [hb])) h2
@@ -244,6 +245,103 @@ theorem finaliseOne_ok {n : Node} {ts : Nat} {h : String} {count : Nat} {evs : L
         | none => exact absurd (Or.inr (by simp [hb])) h2
         | some _ => rfl
       · exact Decidable.not_not.mp h3
+
+/-! ### the pending pool: drained entries leave it, a finalise leaves no expired entry -/
+
+theorem drainCheck_cases (n : Node) (sender : String) (start visited : Nat) (r : Node × Class) :
+    drainCheck n sender start visited r = r ∨
+    (r.2 = .ok ∧ drainCheck n sender start visited r = (n, .reject "drain-kept")) := by
+  obtain ⟨n', c⟩ := r
+  cases c with
+  | ok =>
+    by_cases hg : drainGone n' sender start visited = true
+    · left; show (if _ then _ else _) = _; rw [if_pos hg]
+    · right; refine ⟨rfl, ?_⟩; show (if _ then _ else _) = _; rw [if_neg hg]
+  | err e => exact Or.inl rfl
+  | panic => exact Or.inl rfl
+  | reject w => exact Or.inl rfl
+
+/-- an accepted `drainCheck` is the accepted `addTxs` answer, and no visited nonce has a pending row -/
+theorem drainCheck_ok {n : Node} {sender : String} {start visited : Nat} {r : Node × Class}
+    (hok : (drainCheck n sender start visited r).2 = .ok) :
+    r.2 = .ok ∧ drainCheck n sender start visited r = r ∧ drainGone r.1 sender start visited = true := by
+  obtain ⟨n', c⟩ := r
+  cases c with
+  | ok =>
+    by_cases hg : drainGone n' sender start visited = true
+    · refine ⟨rfl, ?_, hg⟩; show (if _ then _ else _) = _; rw [if_pos hg]
+    · exfalso
+      have : drainCheck n sender start visited (n', .ok) = (n, .reject "drain-kept") := by
+        show (if _ then _ else _) = _; rw [if_neg hg]
+      rw [this] at hok; cases hok
+  | err e => cases hok
+  | panic => cases hok
+  | reject w => cases hok
+
+theorem drainCheck_fst_of_ne_ok {n : Node} {sender : String} {start visited : Nat} {r : Node × Class}
+    (hr : r.2 ≠ .ok → r.1 = n) (hne : (drainCheck n sender start visited r).2 ≠ .ok) :
+    (drainCheck n sender start visited r).1 = n := by
+  rcases drainCheck_cases n sender start visited r with e | ⟨_, e⟩
+  · rw [e] at hne ⊢; exact hr hne
+  · rw [e]
+
+/-- whatever holds of the node before and of the node `addTxs` returns holds of the node `drainCheck` returns -/
+theorem drainCheck_fst_ind {P : Node → Prop} {n : Node} {sender : String} {start visited : Nat} {r : Node × Class}
+    (hn : P n) (hr : P r.1) : P (drainCheck n sender start visited r).1 := by
+  rcases drainCheck_cases n sender start visited r with e | ⟨_, e⟩
+  · rw [e]; exact hr
+  · rw [e]; exact hn
+
+theorem drainGone_spec {n : Node} {sender : String} {start visited : Nat}
+    (h : drainGone n sender start visited = true) :
+    ∀ k, k < visited → (n.t .pending).latest (sender ++ hexN 16 (start + k)) = none := by
+  intro k hk
+  unfold drainGone at h
+  rw [List.all_eq_true] at h
+  have := h k (List.mem_range.mpr hk)
+  simpa using this
+
+/-- what `poolFreshAt` says: every readable row of the pending table was parked fewer than 10 blocks before `bn` -/
+theorem poolFreshAt_spec {n : Node} {bn : Nat} (h : poolFreshAt n bn = true) :
+    ∀ k v, (n.t .pending).latest k = some v → ∃ pb, parkedBlock v = some pb ∧ bn < pb + FUTURE_BLOCKS := by
+  intro k v hl
+  unfold poolFreshAt at h
+  rw [List.all_eq_true] at h
+  have hmem : k ∈ (n.t .pending).db.keys ++ (n.t .pending).cache.keys := by
+    rw [List.mem_append]
+    unfold Table.latest at hl
+    cases hc : AMap.get? (n.t .pending).cache k with
+    | some hh =>
+      right
+      apply Decidable.byContradiction
+      intro hno
+      rw [(AMap.get?_eq_none_iff _ _).mpr hno] at hc
+      cases hc
+    | none =>
+      left
+      rw [hc] at hl
+      apply Decidable.byContradiction
+      intro hno
+      rw [(AMap.get?_eq_none_iff _ _).mpr hno] at hl
+      cases hl
+  have := h k hmem
+  rw [hl] at this
+  simp only at this
+  cases hp : parkedBlock v with
+  | none => rw [hp] at this; cases this
+  | some pb =>
+    rw [hp] at this
+    exact ⟨pb, rfl, by simpa using this⟩
+
+/-- `addRawTx` at the account nonce: `addTxs` for `1 +` the live successors, then the drain check -/
+theorem addRawTx_exec (n : Node) (ts : Nat) (hash0 : String) (idx : Nat) (txid : String) (sender : String)
+    (evs : List Ev) :
+    n.addRawTx ts hash0 idx txid (.ok sender (n.accountNonce sender)) evs =
+      drainCheck n sender (n.accountNonce sender + 1)
+        (drainPlan n sender n.nextHeight FUTURE_NONCES (n.accountNonce sender + 1)).2
+        (n.addTxs ts hash0 idx (some txid) evs
+          (some (1 + (drainPlan n sender n.nextHeight FUTURE_NONCES (n.accountNonce sender + 1)).1))) := by
+  simp only [addRawTx, ne_eq, not_true_eq_false, if_false]
 
 /-- an accepted `addTxs` recorded no write to a block-keyed table -/
 theorem addTxs_ok_noBlock {n : Node} {ts : Nat} {h : String} {idx : Nat} {txid : Option String} {evs : List Ev}
